@@ -24,3 +24,4 @@ def rules(ctx):
     S.c12_db_rules(ctx)
     S.c12_tree_rules(ctx)
     S.cache_reset_rules(ctx)
+    S.extract_state_rules(ctx)
